@@ -197,7 +197,7 @@ def run_shard(shard) -> Result:
         res.outcome(hash(key))
         for kind, detail in viols:
             res.violation(kind, {'trace': trace, 'n_sites': S}, detail)
-        if n == 0:
+        if not res.samples and key and isinstance(key[0], tuple) and len(key) >= 2:
             res.sample({'trace': trace, 'n_sites': S, 'events_or_outcome': [list(k) if isinstance(k, tuple) else k for k in key]})
         if n % 4096 == 0:
             impl.clear_weak_caches()
